@@ -19,7 +19,7 @@ BOUNDS = {
     "quick": "d=2 (and d=3 for K<=2): all real positions, symbolic orthogonal box lengths and bin width with B=int(Lmin/2/delta) "
              "in {1,2}; N=3 particles fully symbolic for K=1..3, ladder families N=K+1 for K=4,5,6; F<=2 frames; periodic and "
              "open masks; selector classification decided for all type pairs 1..K, K=2..5, from the method ASTs",
-    "thorough": "as quick plus d=3 for all K, triclinic concrete cells, B up to 3 and N=4 for K<=2",
+    "thorough": "as quick plus d=3 for all K (ladders K=4,5 in 3D), triclinic concrete cells, B up to 3, N=4 for K<=3, two frames for K=3..5",
 }
 STUBS = ["np.histogram -> documented equal-width semantics (right edge of last bin inclusive) as indicator sums",
          "np.rint -> function symbol + lemma instances", "CSV output -> not formatted (the returned DataFrame is checked)"]
@@ -243,6 +243,13 @@ def cfg(tier, seed):
         out.append(dict(d=3, N=3, F=1, K=2, types=[1, 2, 1], cell="t-", ppp=[1, 1, 1], Bmax=1))
         out.append(dict(d=2, N=3, F=1, K=2, types=[1, 2, 1], cell="sym-o", ppp=per2, Bmax=3))
         out.append(dict(d=2, N=4, F=1, K=2, types=[1, 2, 1, 2], cell="sym-o", ppp=per2, Bmax=1, fixed=1))
+        out.append(dict(d=2, N=4, F=2, K=3, types=[1, 2, 3, 2], cell="sym-o", ppp=per2, Bmax=2, fixed=2))
+        out.append(dict(d=3, N=4, F=1, K=2, types=[1, 2, 2, 1], cell="t+", ppp=[1, 1, 1], Bmax=1, fixed=2))
+        out.append(dict(d=3, N=3, F=2, K=3, types=[3, 1, 2], cell="sym-o", ppp=[1, 0, 1], Bmax=1, fixed=1))
+        for K in (4, 5):
+            base = list(range(1, K + 1))
+            out.append(dict(d=3, N=K + 1, F=1, K=K, types=base + [2], cell="sym-o", ppp=[1, 1, 1], Bmax=1, fixed=K - 1))
+            out.append(dict(d=2, N=K + 1, F=2, K=K, types=base[::-1] + [1], cell="sym-o", ppp=per2, Bmax=1, fixed=K))
     return out
 
 
